@@ -163,6 +163,8 @@ func (e *enc) call(c *Case) {
 	e.i(c.Sc)
 	e.s(`,"bad":`)
 	e.i(c.Bad)
+	e.s(`,"dup":`)
+	e.i(c.Dup)
 	e.s(`,"names":`)
 	if len(c.Names) > 0 {
 		e.s("1")
@@ -381,6 +383,28 @@ func (e *enc) ret(c *Case, res *outcome, rec *recorder, src graph.EdgeSlice, siz
 		}
 		e.s(`],"nsmap":`)
 		e.i(len(sizes))
+		if decoy, ok := decoyMaps[c.Case]; ok {
+			// the decoy map of the first WithNodeSize option, re-read as well
+			e.s(`,"smap0":[`)
+			for i := 1; i <= c.N; i++ {
+				if i > 1 {
+					e.s(",")
+				}
+				sz, ok := decoy[c.name(i)]
+				if !ok {
+					e.s("[0,0,0]")
+					continue
+				}
+				e.s("[1,")
+				e.q(un(sz.W))
+				e.s(",")
+				e.q(un(sz.H))
+				e.s("]")
+			}
+			e.s(`],"nsmap0":`)
+			e.i(len(decoy))
+			delete(decoyMaps, c.Case)
+		}
 		e.s("}")
 	}
 	if c.Cert == 1 {
